@@ -123,10 +123,14 @@ def run_case(case):
     import io
     d = Path(tempfile.mkdtemp(prefix="cli-", dir=tlc.scratch_root()))
     old = os.getcwd()
-    out = {"argv": None, "problems": [], "case": {k: case[k] for k in ("cmd", "flags", "config", "model")}}
+    out = {"argv": None, "problems": [], "case": {k: case.get(k) for k in ("cmd", "flags", "config", "project", "model")}}
     try:
         os.chdir(d)
-        (d / ".git").mkdir()      # project root for the automatic pyproject discovery: none present here
+        (d / ".git").mkdir()      # this directory is the project root for the automatic pyproject discovery
+        if case.get("project"):
+            # the project's own configuration (Cli.tla: ProjCfg); it counts only when no --config file is named
+            (d / "pyproject.toml").write_text('[tool.gotranx]\nscheme = ["generalized_rush_larsen"]\ndelta = 0.5\n'
+                                              'stiff_states = ["y"]\n\n[tool.gotranx.c]\nto = ".c"\n')
         if case["model"] != "missing-file":
             (d / "model.ode").write_text(MODELS[case["model"]])
         argv = argv_of(case)
@@ -135,7 +139,7 @@ def run_case(case):
             (d / "conf.toml").write_text(ct)
             argv += ["--config", "conf.toml"]
         out["argv"] = argv
-        before = {p.name for p in d.iterdir()}
+        before = {p.name for p in d.iterdir()} | {"pyproject.toml"}
         with warnings.catch_warnings(), contextlib.redirect_stdout(io.StringIO()), contextlib.redirect_stderr(io.StringIO()):
             warnings.simplefilter("ignore")
             res = CliRunner().invoke(app, argv)
@@ -190,7 +194,7 @@ def stratified(cases, per_stratum, seed):
         if cfg["present"]:
             falsy = ("delta=0" if cfg["delta"] == "0" else "stiff=[]" if cfg["stiff"] == [] else "scheme=[]" if cfg["scheme"] == [] else "-")
         rl = any("rush_larsen" in s for s in c["eff"].get("scheme", [])) if isinstance(c["eff"], dict) else False
-        strata.setdefault((c["cmd"], c["model"], cfg["present"], falsy, rl), []).append(c)
+        strata.setdefault((c["cmd"], c["model"], cfg["present"], bool(c.get("project")), falsy, rl), []).append(c)
     out = []
     for k in sorted(strata, key=str):
         lst = strata[k]
